@@ -19,12 +19,20 @@ def _kind(t, i):
 def _run(g):
     """Run generator g as a plan inside the reference; returns the response to its last message."""
     resp = None
+    exc = None
     while True:
         try:
-            m = g.send(resp)
+            m = g.throw(exc) if exc is not None else g.send(resp)
         except StopIteration:
             return resp
-        resp = yield m
+        exc = None
+        try:
+            resp = yield m
+        except GeneratorExit:
+            g.close()
+            raise
+        except Exception as e:  # noqa  thrown by the RunEngine at an inserted message: goes into the inserted plan first
+            exc = e
 
 
 def ref_insert(host, proc):
@@ -73,6 +81,8 @@ def make(P):
 
     L, Ls, S = P["L"], P["Ls"], P["S"]
     HOST_OPS = genlab.SIMPLE_OPS + (genlab.TRYEXC, genlab.TRYFIN)
+    SUB_OPS = genlab.SIMPLE_OPS + (genlab.TRANS,)
+    NACT = P.get("nact", 5)
 
     def h(c1: int, c2: int, c3: int, c4: int, h1: int, h2: int, t1: int, t2: int, k: int, form: int,
           a1: int, a2: int, a3: int, a4: int, a5: int, a6: int, a7: int, v1: int, v2: int, v3: int, v4: int, v5: int, v6: int, v7: int) -> str:
@@ -98,12 +108,12 @@ def make(P):
                 log.append(("insert-at", genlab.msg_key(msg)))
 
                 def head():
-                    yield from genlab.interp(hcode, log, tag="h", ops=genlab.SIMPLE_OPS, maxdepth=0)
+                    yield from genlab.interp(hcode, log, tag="h", ops=SUB_OPS, maxdepth=1)
                     if form in (0, 2):
                         return (yield msg)
 
                 def tail():
-                    yield from genlab.interp(tcode, log, tag="t", ops=genlab.SIMPLE_OPS, maxdepth=0)
+                    yield from genlab.interp(tcode, log, tag="t", ops=SUB_OPS, maxdepth=1)
 
                 if form == 4:
                     return None, tail()
@@ -113,8 +123,8 @@ def make(P):
 
         log0, log1 = [], []
         off0, off1 = {}, {}
-        t0 = genlab.drive(ref_insert(genlab.interp(code, log0, ops=HOST_OPS), mkproc(log0, off0)), script, vals)
-        t1 = genlab.drive(bpp.plan_mutator(genlab.interp(code, log1, ops=HOST_OPS), mkproc(log1, off1)), script, vals)
+        t0 = genlab.drive(ref_insert(genlab.interp(code, log0, ops=HOST_OPS), mkproc(log0, off0)), script, vals, nact=NACT)
+        t1 = genlab.drive(bpp.plan_mutator(genlab.interp(code, log1, ops=HOST_OPS), mkproc(log1, off1)), script, vals, nact=NACT)
         tags = []
         if any(e[0] == "offered-twice" for e in log1):
             tags.append("plan_mutator:message-object-offered-to-processor-twice")
@@ -128,6 +138,8 @@ def make(P):
             goal("inserted")
         if any(e[0] == "resp" and e[1] == "t" for e in log1):
             goal("tail-got-response")
+        if any(e[0] == "translate" for e in log1):
+            goal("inserted-plan-translated-exception")
         if any(e[0] == "raise" and e[1] in ("h", "t") for e in log1) and any(e[0] == "caught" for e in log1):
             goal("insert-exception-caught-by-host")
         return ";".join(sorted(set(tags)))
@@ -142,11 +154,11 @@ def _fns():
 
 
 register(Harness("c21_insert", "C21", make,
-                 {"quick": dict(L=3, Ls=1, S=3, shards=16, budget_s=240, per_path_s=20), "thorough": dict(L=3, Ls=2, S=5, shards=16, budget_s=3000, per_path_s=30)},
-                 goals=["inserted", "tail-got-response", "insert-exception-caught-by-host"], functions=_fns,
+                 {"quick": dict(L=2, Ls=2, S=3, nact=4, shards=32, budget_s=240, per_path_s=20), "thorough": dict(L=3, Ls=2, S=5, nact=5, shards=60, budget_s=3000, per_path_s=30)},
+                 goals=["inserted", "tail-got-response", "insert-exception-caught-by-host", "inserted-plan-translated-exception"], functions=_fns,
                  symbolic="host program: L opcodes in {yield, raise, return, end, try/except, try/finally}; head and tail programs: Ls opcodes in "
-                 "{yield, raise, return, end}; insertion at host message k in {0,1}; form in {(head+orig,None),(head,None),(head+orig,tail),(head,tail),"
-                 "(None,tail)}; driver script of S actions {send symbolic int, throw Boom, throw RequestStop, close}",
-                 out_of_bound="head/tail plans that catch exceptions thrown into them; processors that insert into inserted messages (recursion); "
+                 "{yield, raise, return, end, try-block-that-translates-a-thrown-exception}; insertion at host message k in {0,1}; form in {(head+orig,None),(head,None),(head+orig,tail),(head,tail),"
+                 "(None,tail)}; driver script of S actions {send symbolic int, throw Boom, throw RequestStop, close, send None}",
+                 out_of_bound="head/tail plans that swallow exceptions thrown into them; processors that insert into inserted messages (recursion); "
                  "'not re-processed' is checked as: a message object once offered to the processor is never offered again",
                  require_exhaustive=True))
